@@ -243,6 +243,105 @@ CHECKS = {
         "Trusted: numpy rotation oracle. Not covered: rotations outside the "
         "alphabets.",
         "DESIGN.md 4/C14"),
+    "C01": (
+        "E4-cli",
+        "exhaustive pose-pair / sequence enumeration on the real metrics.APE "
+        "and exhaustive (thorough) option-lattice exploration of evo_ape "
+        "against a reference pipeline",
+        "Metric core: all 107^2 ordered rotation pairs of the hard alphabet "
+        "(angles 1e-16..1e-3 and pi-1e-12..pi, positions to 5.4e6 m) x 6 "
+        "relations x both storage modes, value k against pair k; all "
+        "sequences of length <=3 (4) over 6 poses x 4 perturbations: order, "
+        "zero, swap symmetry, common rigid motion, unequal lengths and the 7th "
+        "relation refused. evo_ape: 11-dimensional lattice (relation, 6 "
+        "alignment modes, n_to_align, downsample, motion filter, t_max_diff, "
+        "t_offset, crop, projection, unit change, TUM/KITTI/EuRoC) - full "
+        "product in the thorough tier, pairwise + 9216-point sub-product in "
+        "the quick tier - error_array and timestamps from the saved zip vs "
+        "the reference pipeline incl. predicted refusals.",
+        "Trusted: reference pipeline and definitions (mc/refmodel, "
+        "mc/checks/ape_rpe_common.py), Horn oracle, evo's project() for the "
+        "orientation of non-planar projections, one 8-pose fixture.",
+        "DESIGN.md 4/C01"),
+    "C02": (
+        "E4-cli",
+        "exhaustive motion-sequence enumeration on the real metrics.RPE and "
+        "option-lattice exploration of evo_rpe against a reference pipeline",
+        "Estimate = every sequence of <=3 (4) steps over 8 motions, reference "
+        "= fixed sequences with zero-length steps, x 8 (unit, delta) x "
+        "all_pairs x pairs_from_reference x 7 relations: one value per "
+        "selected pair in order, pair end indices, zero reference distances "
+        "skipped consistently, unequal lengths refused; drift independence "
+        "under different rigid motions; zero for identical relative motions. "
+        "evo_rpe lattice (14 dimensions; pairwise + full sub-products) vs the "
+        "reference pipeline.",
+        "Trusted: as C01; the pair selection itself is evo's "
+        "id_pairs_from_delta (decided by C10) applied to the trajectory the "
+        "property names.",
+        "DESIGN.md 4/C02"),
+    "C06": (
+        "E1-enum",
+        "exhaustive enumeration of writer x reader variants with a float "
+        "alphabet rotated through every numeric slot, bit-exact comparison",
+        "~760 float values needing up to 17 digits (9 mantissa patterns x 40 "
+        "binary exponents x sign, +-0.0, 1e+-300, epoch stamps) pass through "
+        "every column slot (Latin-square rotation) of TUM and KITTI files for "
+        "all {str, Path, handle}^2 writer/reader variants x storage modes x "
+        "sizes {1,2,3,|F| (,1e5)}, of result archives (with/without embedded "
+        "trajectories, unicode info, empty / 2-D arrays), of DataFrame "
+        "conversions (explicit types), and a ROS1 bag (positions/quaternions "
+        "exact, frame id, stamps within 1 ns).",
+        "Trusted: numpy bit patterns. Not covered: ROS2 bag export (the "
+        "installed rosbags writer needs an argument evo does not pass), "
+        "denormals / values beyond 1e+-300.",
+        "DESIGN.md 4/C06"),
+    "C07": (
+        "E1-enum",
+        "exhaustive enumeration of all files of <= 3 rows over a row grammar "
+        "against an independent parser",
+        "TUM, KITTI and 17-column EuRoC files built from every sequence of "
+        "<=3 rows over {valid row (4 float spellings), comment, missing inner "
+        "field, extra field, trailing delimiter, doubled delimiter, blank "
+        "row, non-numeric field at 5-8 positions} x line ending x BOM x "
+        "str/Path/handle: well-formed files load to exactly the numbers in "
+        "the right slots (independent tokenizer, quaternion->matrix formula, "
+        "ns->s within 1 ulp), malformed ones raise FileInterfaceException; "
+        "files without data rows; evo-written files parsed independently; "
+        "transform files in 3 forms incl. 8 invalid classes.",
+        "Trusted: mc/refmodel/files.py, Python float(). EuRoC rows are "
+        "malformed if < 8 columns or inconsistent with the other rows.",
+        "DESIGN.md 4/C07"),
+    "C17": (
+        "E2-hist",
+        "exhaustive enumeration of run histories over the {absent, old, new} "
+        "state of every output path with scripted answers, bytewise "
+        "directory snapshots",
+        "30 output kinds (7 writer functions, every output option of evo_ape, "
+        "evo_rpe, evo_traj, evo_res, evo_config generate -o, evo_fig) x "
+        "initial {absent, old, first-of-several old} x histories of 1-2 runs "
+        "x answers {y, n, '', Y, yes} x warnings on/off x str/Path: existing "
+        "files bytewise unchanged unless the answer is exactly 'y' or "
+        "warnings are off, a prompt is issued iff something exists, nothing "
+        "else is written in place, outputs are written otherwise; a "
+        "completeness guard introspects the parsers for uncovered output "
+        "options.",
+        "Trusted: input() substitution, directory snapshots. Excluded: "
+        "--logfile (append), bag exports (time-stamped names).",
+        "DESIGN.md 4/C17"),
+    "C20": (
+        "E1-enum",
+        "exhaustive enumeration of plot modes x settings with read-back of "
+        "matplotlib artist data",
+        "7 plot modes x pose counts x timestamps/start time x markers x axis "
+        "markers x correspondence edges x 4 length units x storage modes: "
+        "line, marker, colour-mapped segment, frame-marker and edge "
+        "coordinates and axis labels are read back from the artists and "
+        "compared with the columns named by the mode; xyz/rpy/speed plots "
+        "(called twice on the same objects) and error_array against shifted "
+        "timestamps / index; plot.trajectories() for dict/list/single.",
+        "Trusted: matplotlib artist accessors (incl. private 3-D fields). "
+        "Agg backend only.",
+        "DESIGN.md 4/C20"),
 }
 
 NOT_YET = {
